@@ -1,21 +1,23 @@
 /* contracts/btlsupd.h -- libxcm/tp/tls/xcm_tp_btls.c, the half that unit btls left out:
  *   C04/C16  conn_update, server_update, btls_update: what the byte-stream TLS transport registers for wake-up
  *   C08/C18  btls_server (bind ladder), btls_close, btls_cleanup (+ deinit/conn_deinit inlined): life cycle
- *   C10      get_actual_peer_names_attr, get_peer_names_attr, the peer certificate getters
+ *   C10      tls.peer_names (get_peer_names_attr, get_actual_/get_valid_peer_names_attr), the peer certificate getters (subject key id,
+ *            subject CN, SANs), the credential getters (tls.*_file, tls.cert/key/tc/crl) and the five boolean policy getters
  * Reuses contracts/btls.h (socket shape, finalize_tls_conf, item/slist/ctx_store models) and env/ssl_env.h unchanged; the models
  * of the callees this unit must observe more closely are in env/btlsupd_env.h (see there for the redirection).
  *
  * ---------------------------------------------------------------------------------------------------------------------------
  * conn_update AS A TABLE.  Inputs: state, c = s->condition (what the application awaits: 0, R, S, R|S), sc = conn.ssl_condition
  * (the XCM operation whose SSL_read/SSL_write OpenSSL refused last: 0 = none since the last successful/any SSL call, R = receive,
- * S = send), sw = conn.ssl_wants (the direction OpenSSL said it needs: R or S; 0 only with sc == 0), hp = SSL_has_pending().
+ * S = send), sw = conn.ssl_wants (the direction OpenSSL said it needs: R or S; 0 only with sc == 0), hp = SSL_has_pending(),
+ * pl = hp && sc != R (deliverable plaintext pending, see below).
  * Outputs: L = the condition handed to the btcp sub-socket, U = the sub-socket's update ran (seeing L), B = the bell rings.
  *
- *   state        c      hp   sc   sw  |  L     U  B   | why (code comment / property)
+ *   state        c      pl   sc   sw  |  L     U  B   | why (code comment / property)
  *   handshaking  any    -    0    R|S |  sw    1  0   | C04: OpenSSL said what the handshake waits for
  *   closed, bad  any    -    -    -   |  0     0  1   | C04/C06: terminal condition to report, whatever is awaited
  *   ready        0      -    -    -   |  0     1  0   | C16: nothing awaited
- *   ready        R,R|S  1    -    -   |  0     0  1   | C04: plaintext already inside OpenSSL will never make the fd readable
+ *   ready        R,R|S  1    !=R  -   |  0     0  1   | C04: plaintext already inside OpenSSL will never make the fd readable
  *   ready        != 0   *    0    -   |  0     0  1   | "No SSL_read()/write() issued": nothing known, let the application try
  *   ready        R      0    R    sw  |  sw    1  0   | C16: after a refused receive: exactly what OpenSSL asked for
  *   ready        S      -    S    sw  |  sw    1  0   | same for a refused send
@@ -24,7 +26,16 @@
  *   ready        R|S    0    S    R   |  R     1  0   | send refused, wants read ("reneg"): R serves both the send and the awaited R
  *   ready        R|S    0    S    S   |  R|S   1  0   | send refused, wants write ("backpressure"); R: the application's own interest
  *   ready        R|S    0    R    R|S |  R|S   1  0   | receive refused; S: the application's own interest (no send was refused)
- *   (* = with c containing R: hp == 0, else any)
+ *   (* = with c containing R: pl == 0, else any)
+ * pl ("deliverable plaintext is pending") := SSL_has_pending() && sc != R.  SSL_has_pending() is true for processed AND for unprocessed
+ * data, i.e. also while only a PART of a TLS record has arrived.  With sc == R the last SSL call on this connection was an SSL_read that
+ * OpenSSL refused (WANT_READ/WANT_WRITE) and nothing has entered OpenSSL since (every SSL call resets ssl_condition first): whatever is
+ * buffered is not deliverable (assumption A8 on OpenSSL: SSL_read does not refuse while it holds processed application data), so
+ * ringing the bell for it makes the descriptor readable although "xcm_receive has reported EAGAIN and nothing new has arrived" (C16):
+ * the event loop spins until the rest of the record arrives.  THE CURRENT TREE DOES THAT (rows 4 and 6 disagree for hp == 1, sc == R):
+ * obligations conn_update.exact_table, .after_refused_op_exactly_ssl_wants, .bell_only_where_justified FAIL; reproduced natively
+ * (harness/btlsupd/native_spin.c.txt + native_spin_client.py.txt: 1.4 million wake-ups in 2 s while half a record is pending; 2 with the fix:
+ * `bts->conn.ssl_condition != XCM_SO_RECEIVABLE &&` in front of the first SSL_has_pending() test, and the second, then dead, test removed).
  *
  * The C04 reading of a row: for EACH awaited direction d the application is woken when d may have become possible:
  *   NEED(d) = sw if the last refused operation was the one for d (sc == d), else d itself (nothing refused: the btcp socket's
@@ -53,16 +64,21 @@
  * btls_send, btls_receive); process_ssl_event sets ssl_condition = the operation and ssl_wants = R/S together on WANT_READ/
  * WANT_WRITE (ssl_condition 0 for a handshake step), ssl_wants = R alone on a spurious EINPROGRESS; a socket that is still
  * handshaking after its step got WANT_* or EINPROGRESS (anything else leaves the state).  Preservation by those four functions:
- * lemma jobs btlsupd.wants_inv_* */
+ * lemma job btlsupd.wants_inv (plain CBMC on the real functions) */
 #define XU_WANTS_INV(s) ((XU_SC(s) == 0 || XU_DIR(XU_SC(s))) && (XU_SW(s) == 0 || XU_DIR(XU_SW(s))) && (XU_SC(s) != 0 ==> XU_SW(s) != 0) && \
                          (BT_STATE(s) == conn_state_tls_handshaking ==> (XU_SC(s) == 0 && XU_SW(s) != 0)))
 /* update() is reachable on a connection only after a successful connect/accept: handshaking, ready, closed or bad */
 #define XU_UPD_STATE(s) (BT_STATE(s) == conn_state_tls_handshaking || BT_STATE(s) == conn_state_ready || BT_STATE(s) == conn_state_closed || BT_STATE(s) == conn_state_bad)
-#define XU_CONN_UPD_REQ(s) (XU_CONN_OWNS(s) && XU_UPD_STATE(s) && XU_WANTS_INV(s) && (XU_C(s) & ~XU_RS) == 0)
+/* the ghost constants xvu_in_* (env/btlsupd_env.h, never assigned) are bound to the inputs of the table, so that the canaries of the
+ * harness can name its rows */
+#define XU_IN_BOUND(s) ((int)BT_STATE(s) == xvu_in_st && XU_C(s) == xvu_in_c && XU_SC(s) == xvu_in_sc && XU_SW(s) == xvu_in_sw)
+#define XU_CONN_UPD_REQ(s) (XU_CONN_OWNS(s) && XU_UPD_STATE(s) && XU_WANTS_INV(s) && (XU_C(s) & ~XU_RS) == 0 && XU_IN_BOUND(s))
 #define XU_SERVER_UPD_REQ(s) ((XU_C(s) & ~XCM_SO_ACCEPTABLE) == 0)
 
 /* ---- the table */
-#define XU_T_BELL_READY(c, sc) ((c) != 0 && ((((c) & XU_R) != 0 && XU_HP) || ((c) & (sc)) == 0))
+/* deliverable plaintext is pending inside OpenSSL (see the header: SSL_has_pending() counts a partial record too) */
+#define XU_PLAIN(sc) (XU_HP && (sc) != XU_R)
+#define XU_T_BELL_READY(c, sc) ((c) != 0 && ((((c) & XU_R) != 0 && XU_PLAIN(sc)) || ((c) & (sc)) == 0))
 #define XU_T_BELL(st, c, sc) ((st) == conn_state_closed || (st) == conn_state_bad || ((st) == conn_state_ready && XU_T_BELL_READY(c, sc)))
 #define XU_T_LOW(st, c, sc, sw) ((st) == conn_state_tls_handshaking ? (sw) : \
                                  ((st) != conn_state_ready || (c) == 0 || XU_T_BELL_READY(c, sc)) ? 0 : \
@@ -84,13 +100,13 @@
 #define XU_CONN_HANDSHAKING(s) (BT_STATE(s) == conn_state_tls_handshaking ==> (XU_SW(s) != 0 && XU_L(s) == XU_SW(s) && XU_LOW_UPDATED_ONCE(s)))
 #define XU_CONN_NO_LOST_WAKEUP(s) ((BT_STATE(s) == conn_state_ready && XU_C(s) != 0) ==> \
                                    ((XU_BELL_SET_ONCE && XU_RINGS) || (XU_LOW_UPDATED_ONCE(s) && (xvu.low_upd_cond & XU_NEED(s)) == XU_NEED(s))))
-#define XU_CONN_PENDING_RINGS(s) ((BT_STATE(s) == conn_state_ready && (XU_C(s) & XU_R) != 0 && XU_HP) ==> (XU_BELL_SET_ONCE && XU_RINGS))
+#define XU_CONN_PENDING_RINGS(s) ((BT_STATE(s) == conn_state_ready && (XU_C(s) & XU_R) != 0 && XU_PLAIN(XU_SC(s))) ==> (XU_BELL_SET_ONCE && XU_RINGS))
 #define XU_CONN_TERMINAL_RINGS(s) ((BT_STATE(s) == conn_state_closed || BT_STATE(s) == conn_state_bad) ==> (XU_BELL_SET_ONCE && XU_RINGS))
 #define XU_CONN_IDLE_QUIET(s) ((BT_STATE(s) == conn_state_ready && XU_C(s) == 0) ==> (XU_L(s) == 0 && XU_BELL_SET_ONCE && !XU_RINGS && XU_LOW_UPDATED_ONCE(s)))
-#define XU_CONN_REFUSED_EXACT(s) ((BT_STATE(s) == conn_state_ready && XU_DIR(XU_C(s)) && XU_SC(s) == XU_C(s) && !(XU_C(s) == XU_R && XU_HP)) ==> \
+#define XU_CONN_REFUSED_EXACT(s) ((BT_STATE(s) == conn_state_ready && XU_DIR(XU_C(s)) && XU_SC(s) == XU_C(s)) ==> \
                                   (XU_L(s) == XU_SW(s) && XU_BELL_SET_ONCE && !XU_RINGS && XU_LOW_UPDATED_ONCE(s)))
 #define XU_CONN_BELL_JUSTIFIED(s) (XU_RINGS ==> (BT_STATE(s) == conn_state_closed || BT_STATE(s) == conn_state_bad || \
-                                   (BT_STATE(s) == conn_state_ready && XU_C(s) != 0 && (((XU_C(s) & XU_R) != 0 && XU_HP) || XU_SC(s) == 0 || (XU_C(s) & XU_SC(s)) == 0))))
+                                   (BT_STATE(s) == conn_state_ready && XU_C(s) != 0 && (((XU_C(s) & XU_R) != 0 && XU_PLAIN(XU_SC(s))) || XU_SC(s) == 0 || (XU_C(s) & XU_SC(s)) == 0))))
 #define XU_CONN_LOW_JUSTIFIED(s) ((XU_L(s) & ~(BT_STATE(s) == conn_state_ready ? (XU_C(s) | XU_SW(s)) : XU_SW(s))) == 0 && (XU_RINGS ==> (XU_L(s) == 0 && XU_LOW_NOT_UPDATED)))
 
 static void conn_update(struct xcm_socket *s)
@@ -104,15 +120,15 @@ __CPROVER_ensures(XU_CONN_EXACT(s))
 __CPROVER_ensures(XU_CONN_HANDSHAKING(s))
 /* PO[C04] conn_update.no_lost_wakeup: ready and something awaited: the bell rings, or the sub-socket was updated with a condition that includes, for every awaited direction, what OpenSSL asked for when it refused that operation last, else that direction itself */
 __CPROVER_ensures(XU_CONN_NO_LOST_WAKEUP(s))
-/* PO[C04] conn_update.pending_plaintext_rings_bell: RECEIVABLE awaited and data already inside OpenSSL: the bell rings (the descriptor underneath will not become readable for it) */
+/* PO[C04] conn_update.pending_plaintext_rings_bell: RECEIVABLE awaited and deliverable data already inside OpenSSL: the bell rings (the descriptor underneath will not become readable for it) */
 __CPROVER_ensures(XU_CONN_PENDING_RINGS(s))
 /* PO[C04,C06] conn_update.terminal_rings_bell: closed/bad: the bell rings whatever is awaited */
 __CPROVER_ensures(XU_CONN_TERMINAL_RINGS(s))
 /* PO[C16] conn_update.idle_is_quiet: ready and nothing awaited: the sub-socket awaits nothing (and was told so), the bell is silent */
 __CPROVER_ensures(XU_CONN_IDLE_QUIET(s))
-/* PO[C16] conn_update.after_refused_op_exactly_ssl_wants: the awaited operation is the one OpenSSL refused last (receive after EAGAIN: nothing pending inside OpenSSL): the sub-socket awaits exactly ssl_wants, the bell is silent */
+/* PO[C16] conn_update.after_refused_op_exactly_ssl_wants: the awaited operation is the one OpenSSL refused last (RECEIVABLE after xcm_receive reported EAGAIN, nothing new arrived -- whatever SSL_has_pending() says about a partial record): the sub-socket awaits exactly ssl_wants, the bell is silent */
 __CPROVER_ensures(XU_CONN_REFUSED_EXACT(s))
-/* PO[C16] conn_update.bell_only_where_justified: the bell rings only when closed/bad, or ready with something awaited and (plaintext pending with RECEIVABLE awaited, or no SSL operation refused since the last one, or the refused one is not among the awaited) */
+/* PO[C16] conn_update.bell_only_where_justified: the bell rings only when closed/bad, or ready with something awaited and (deliverable plaintext pending with RECEIVABLE awaited, or no SSL operation refused since the last one, or the refused one is not among the awaited) */
 __CPROVER_ensures(XU_CONN_BELL_JUSTIFIED(s))
 /* PO[C16] conn_update.lower_only_what_was_asked: the sub-socket never awaits a direction that neither the application nor OpenSSL asked for; with the bell ringing it awaits nothing and is not updated */
 __CPROVER_ensures(XU_CONN_LOW_JUSTIFIED(s))
@@ -225,8 +241,8 @@ __CPROVER_assigns(xv_ctx_get_calls, xv_ctx_refs, xv_ctx_cert, xv_ctx_key, xv_ctx
 __CPROVER_assigns(xvu.addr_calls, xvu.addr_rv, xvu.addr_buf, xvu.addr_in, xvu.low_servers, xvu.low_server_rv, xvu.low_server_addr_ok, xvu.low_closes, XU_DEINIT_ASSIGNS)
 __CPROVER_assigns(XU_DEINIT_SOCK_ASSIGNS(s), BT(s)->valid_peer_names, BT(s)->ssl_ctx, BT(s)->server.created)
 __CPROVER_ensures(__CPROVER_return_value == 0 || (__CPROVER_return_value == -1 && xv_errno > 0))
-/* PO[C08] btls_server.failure_leaves_nothing: a failed bind, at whichever step, keeps no context reference, and the sub-socket is destroyed without anything it held being lost; nothing that belongs to a connection is touched */
-__CPROVER_ensures(__CPROVER_return_value == -1 ==> (XU_SAME(xv_ctx_refs) && XU_LOW_GONE(s) && XU_SAME(xvu.low_cleanups) && XU_SAME(xvu.bell_dels) && XU_SAME(xv_ssl_free_calls) && XU_ITEM_RELEASED(s)))
+/* PO[C08] btls_server.failure_leaves_nothing: a failed bind, at whichever step, keeps no context reference, and the sub-socket is destroyed without anything it held being lost; every credential item is emptied; nothing that belongs to a connection is touched */
+__CPROVER_ensures(__CPROVER_return_value == -1 ==> (XU_SAME(xv_ctx_refs) && XU_LOW_GONE(s) && XU_SAME(xvu.low_cleanups) && XU_SAME(xvu.bell_dels) && XU_SAME(xv_ssl_free_calls) && BT_W(s, type) == item_type_none))
 /* PO[C08] btls_server.close_rule_of_xcm_tp_h: the sub-socket is closed exactly once if the failure came before its own server() call, and NOT closed after its own server() call failed (it has cleaned up itself) */
 __CPROVER_ensures(__CPROVER_return_value == -1 ==> xvu.low_closes == __CPROVER_old(xvu.low_closes) + (XU_SRV_BIND_TRIED ? 0 : 1))
 /* PO[C08,C18] btls_server.success_holds_exactly: a bound server holds its live sub-socket (neither closed nor destroyed) and ONE reference to the context made from its credentials */
@@ -241,6 +257,220 @@ __CPROVER_ensures(XU_PLUS(xvu.addr_calls, 1) && xvu.addr_in == local_addr && (!X
 __CPROVER_ensures(XU_SRV_BIND_TRIED ==> (XU_PLUS(xvu.low_servers, 1) && xvu.low_server_addr_ok && XU_SRV_CTX_TRIED && XU_SRV_ADDR_OK))
 __CPROVER_ensures((__CPROVER_return_value == 0) == (XU_SRV_BIND_TRIED && xvu.low_server_rv == 0))
 ;
+
+/* ================================================================================================================ */
+/* C10: the attribute getters unit btls left out (jobs include harness/btlsupd/_c10.h)                               */
+/* ================================================================================================================ */
+#ifdef XVU_C10
+/* The caller's buffer is an object of EXACTLY `capacity` bytes (1 byte for capacity 0, which must then not be written: it is in no
+ * assigns clause): any store beyond `capacity` is a failed pointer/assigns obligation at the offending statement.  Capacities above
+ * XG_CAP_MAX and values longer than XG_LEN_MAX are not explored (is_fresh needs a bound). */
+#define XG_CAP_MAX 1024
+#define XG_LEN_MAX 1500
+#define XG_OUT(value, capacity) ((capacity) <= XG_CAP_MAX && __CPROVER_is_fresh((value), (capacity) == 0 ? 1 : (capacity)))
+#define XG_STR_OK (xvg_len <= XG_LEN_MAX && xvg_c_j != 0)
+#define XG_CH(p) ((const char *)(p))
+/* the string value (ghost length xvg_len) and its NUL are written iff they fit; the result is the number of bytes written; the
+ * copy is byte-exact (arbitrary position xv_j) */
+#define XG_STR_WRITTEN(rv, value) ((rv) == (int)(xvg_len + 1) && XG_CH(value)[xvg_len] == 0 && ((xv_j >= 0 && (size_t)xv_j < xvg_len) ==> XG_CH(value)[xv_j] == xvg_c_j))
+#define XG_STR_RESULT(rv, value, capacity) (xvg_len + 1 <= (capacity) ? XG_STR_WRITTEN(rv, value) : ((rv) == -1 && xv_errno == EOVERFLOW))
+#define XG_FITS(rv, capacity) ((rv) >= -1 && ((rv) >= 0 ==> (size_t)(rv) <= (capacity)))
+#define XG_CERT_ASSIGNS xv_x509_refs, xv_peer_cert_calls
+#define XG_CERT_RANGE (XV_SSL_CNT_OK(xv_x509_refs) && XV_SSL_CNT_OK(xv_peer_cert_calls))
+#define XG_HAS_CERT (xv_ssl_peer_cert != 0)
+#define XG_CERT_BALANCED (xv_x509_refs == __CPROVER_old(xv_x509_refs))
+#define XG_STR_ASSIGNS xvg_strcpy_calls, xvg_strcpy_dst
+
+/* ---- tls.peer_names on an established connection: the names the peer's certificate carries */
+static int get_actual_peer_names_attr(struct xcm_socket *s, void *value, size_t capacity)
+__CPROVER_requires(BT_FRESH(s) && XG_OUT(value, capacity) && XG_STR_OK && XVG_RANGE && XG_CERT_RANGE && XV_SSL_CNT_OK(xv_slist_destroy_calls))
+__CPROVER_assigns(xv_errno, XG_CERT_ASSIGNS, XG_STR_ASSIGNS, xvg.names_calls, xvg.names_list, xvg.join_calls, xvg.join_list, xvg.join_str, xv_slist_n, xv_slist_destroy_calls, xv_slist_destroyed)
+__CPROVER_assigns(capacity > 0: __CPROVER_object_upto(value, capacity))
+/* PO[C10] get_actual_peer_names_attr.never_more_than_capacity */
+__CPROVER_ensures(XG_FITS(__CPROVER_return_value, capacity))
+/* PO[C10] get_actual_peer_names_attr.fits_or_eoverflow: the joined names and their NUL are written iff they fit; the result is the number of bytes written */
+__CPROVER_ensures((XG_HAS_CERT && xvg_nnames > 0) ==> XG_STR_RESULT(__CPROVER_return_value, value, capacity))
+/* PO[C10] get_actual_peer_names_attr.no_names_is_enoent: a certificate without any subject name: ENOENT */
+__CPROVER_ensures((XG_HAS_CERT && xvg_nnames == 0) ==> (__CPROVER_return_value == -1 && xv_errno == ENOENT))
+/* PO[C10] get_actual_peer_names_attr.no_certificate_writes_nothing: no peer certificate (tls.auth off): 0 bytes, nothing written */
+__CPROVER_ensures(!XG_HAS_CERT ==> (__CPROVER_return_value == 0 && xvg_strcpy_calls == __CPROVER_old(xvg_strcpy_calls)))
+/* the certificate reference is given back; the temporary list is destroyed exactly once iff it was made */
+__CPROVER_ensures(XG_CERT_BALANCED && (XG_HAS_CERT ? (XU_PLUS(xv_slist_destroy_calls, 1) && xv_slist_destroyed == xvg.names_list) : XU_SAME(xv_slist_destroy_calls)))
+;
+/* ---- tls.peer_names before/without an established connection: the names expected (same contract as harness/btls/get_valid_peer_names.c,
+ * over this unit's string ghosts; used as an ASSUMED contract by the job of get_peer_names_attr, enforced in job btlsupd.get_valid_peer_names) */
+static int get_valid_peer_names_attr(struct xcm_socket *s, void *value, size_t capacity)
+__CPROVER_requires(BT_FRESH(s) && XG_OUT(value, capacity) && XG_STR_OK && XVG_RANGE)
+__CPROVER_requires(BT(s)->valid_peer_names != NULL ==> __CPROVER_is_fresh(BT(s)->valid_peer_names, 8))
+__CPROVER_assigns(xv_errno, XG_STR_ASSIGNS, xvg.join_calls, xvg.join_list, xvg.join_str)
+__CPROVER_assigns(capacity > 0: __CPROVER_object_upto(value, capacity))
+/* PO[C10] get_valid_peer_names_attr.never_more_than_capacity */
+__CPROVER_ensures(XG_FITS(__CPROVER_return_value, capacity))
+/* PO[C10] get_valid_peer_names_attr.fits_or_eoverflow */
+__CPROVER_ensures(BT(s)->valid_peer_names != NULL ==> XG_STR_RESULT(__CPROVER_return_value, value, capacity))
+/* PO[C10] get_valid_peer_names_attr.no_names_is_enoent */
+__CPROVER_ensures(BT(s)->valid_peer_names == NULL ==> (__CPROVER_return_value == -1 && xv_errno == ENOENT && xvg_strcpy_calls == __CPROVER_old(xvg_strcpy_calls)))
+;
+/* ---- tls.peer_names: dispatch */
+#define XG_ESTABLISHED(s) (BT_IS_CONN(s) && BT_STATE(s) == conn_state_ready)
+static int get_peer_names_attr(struct xcm_socket *s, void *context, void *value, size_t capacity)
+__CPROVER_requires(BT_FRESH(s) && XU_TYPE_OK(s) && XG_OUT(value, capacity) && XG_STR_OK && XVG_RANGE && XG_CERT_RANGE && XV_SSL_CNT_OK(xv_slist_destroy_calls))
+__CPROVER_requires(BT(s)->valid_peer_names != NULL ==> __CPROVER_is_fresh(BT(s)->valid_peer_names, 8))
+__CPROVER_assigns(xv_errno, XG_CERT_ASSIGNS, XG_STR_ASSIGNS, xvg.names_calls, xvg.names_list, xvg.join_calls, xvg.join_list, xvg.join_str, xv_slist_n, xv_slist_destroy_calls, xv_slist_destroyed)
+__CPROVER_assigns(capacity > 0: __CPROVER_object_upto(value, capacity))
+/* PO[C10] get_peer_names_attr.never_more_than_capacity: whatever the socket kind and state */
+__CPROVER_ensures(XG_FITS(__CPROVER_return_value, capacity))
+/* PO[C10] get_peer_names_attr.capacity_zero_is_eoverflow */
+__CPROVER_ensures(capacity == 0 ==> (__CPROVER_return_value == -1 && xv_errno == EOVERFLOW && xvg_strcpy_calls == __CPROVER_old(xvg_strcpy_calls)))
+/* PO[C10] get_peer_names_attr.established_reports_certificate_names: fits => written, rv == bytes written; else EOVERFLOW */
+__CPROVER_ensures((capacity > 0 && XG_ESTABLISHED(s) && XG_HAS_CERT && xvg_nnames > 0) ==> XG_STR_RESULT(__CPROVER_return_value, value, capacity))
+/* PO[C10] get_peer_names_attr.otherwise_reports_expected_names */
+__CPROVER_ensures((capacity > 0 && !XG_ESTABLISHED(s) && BT(s)->valid_peer_names != NULL) ==> XG_STR_RESULT(__CPROVER_return_value, value, capacity))
+__CPROVER_ensures((capacity > 0 && !XG_ESTABLISHED(s) && BT(s)->valid_peer_names == NULL) ==> (__CPROVER_return_value == -1 && xv_errno == ENOENT))
+__CPROVER_ensures((capacity > 0 && XG_ESTABLISHED(s) && XG_HAS_CERT && xvg_nnames == 0) ==> (__CPROVER_return_value == -1 && xv_errno == ENOENT))
+;
+
+/* ---- tls.peer_subject_key_id (binary) */
+static int get_peer_subject_key_id(struct xcm_socket *s, void *context, void *value, size_t capacity)
+__CPROVER_requires(BT_FRESH(s) && BT_IS_CONN(s) && XG_OUT(value, capacity) && xvg_ski_len <= XG_LEN_MAX && XVG_RANGE && XG_CERT_RANGE)
+__CPROVER_assigns(xv_errno, XG_CERT_ASSIGNS, xvg.has_ski_calls, xvg.ski_len_calls, xvg.ski_calls, xvg.ski_buf)
+__CPROVER_assigns(capacity > 0: __CPROVER_object_upto(value, capacity))
+/* PO[C10] get_peer_subject_key_id.never_more_than_capacity */
+__CPROVER_ensures(XG_FITS(__CPROVER_return_value, capacity))
+/* PO[C10] get_peer_subject_key_id.fits_or_eoverflow: the whole identifier is stored iff it fits (rv == its length == bytes written), else EOVERFLOW and nothing is stored */
+__CPROVER_ensures((BT_STATE(s) == conn_state_ready && XG_HAS_CERT && xvg_has_ski) ==> \
+        (xvg_ski_len <= capacity ? (__CPROVER_return_value == (int)xvg_ski_len && XU_PLUS(xvg.ski_calls, 1) && xvg.ski_buf == value && \
+                                    ((xv_j >= 0 && (size_t)xv_j < xvg_ski_len) ==> XG_CH(value)[xv_j] == xvg_c_j)) \
+                                 : (__CPROVER_return_value == -1 && xv_errno == EOVERFLOW && XU_SAME(xvg.ski_calls))))
+/* PO[C10] get_peer_subject_key_id.absent_is_empty: not established, no certificate, or no identifier: 0 bytes, nothing written */
+__CPROVER_ensures(!(BT_STATE(s) == conn_state_ready && XG_HAS_CERT && xvg_has_ski) ==> (__CPROVER_return_value == 0 && XU_SAME(xvg.ski_calls)))
+__CPROVER_ensures(XG_CERT_BALANCED)
+;
+/* ---- tls.peer.cert.subject.cn */
+static int get_peer_subject_cn(struct xcm_socket *s, void *context, void *value, size_t capacity)
+__CPROVER_requires(BT_FRESH(s) && BT_IS_CONN(s) && XG_OUT(value, capacity) && XG_STR_OK && XVG_RANGE && XG_CERT_RANGE)
+__CPROVER_assigns(xv_errno, XG_CERT_ASSIGNS, XG_STR_ASSIGNS, xvg.cn_calls)
+__CPROVER_assigns(capacity > 0: __CPROVER_object_upto(value, capacity))
+/* PO[C10] get_peer_subject_cn.never_more_than_capacity */
+__CPROVER_ensures(XG_FITS(__CPROVER_return_value, capacity))
+/* PO[C10] get_peer_subject_cn.fits_or_eoverflow */
+__CPROVER_ensures((BT_STATE(s) == conn_state_ready && XG_HAS_CERT && !xvg_no_str) ==> XG_STR_RESULT(__CPROVER_return_value, value, capacity))
+/* PO[C10] get_peer_subject_cn.absent_is_enoent: established but no certificate or no CN: ENOENT; not established: 0 bytes */
+__CPROVER_ensures((BT_STATE(s) == conn_state_ready && (!XG_HAS_CERT || xvg_no_str)) ==> (__CPROVER_return_value == -1 && xv_errno == ENOENT))
+__CPROVER_ensures(BT_STATE(s) != conn_state_ready ==> (__CPROVER_return_value == 0 && xvg_strcpy_calls == __CPROVER_old(xvg_strcpy_calls)))
+__CPROVER_ensures(XG_CERT_BALANCED)
+;
+/* ---- tls.peer.cert.san.{dns,emails,dirs[].cn}: the index-th subject alternative name of one type */
+static int get_san_attr(struct xcm_socket *s, enum cert_san_type san_type, size_t index, void *value, size_t capacity)
+__CPROVER_requires(BT_FRESH(s) && XG_OUT(value, capacity) && XG_STR_OK && XVG_RANGE && XG_CERT_RANGE && (unsigned)san_type <= (unsigned)cert_san_type_dir)
+__CPROVER_assigns(xv_errno, XG_CERT_ASSIGNS, XG_STR_ASSIGNS, xvg.count_calls, xvg.san_calls, xvg.dir_calls, xvg.san_type, xvg.san_index)
+__CPROVER_assigns(capacity > 0: __CPROVER_object_upto(value, capacity))
+/* PO[C10] get_san_attr.never_more_than_capacity */
+__CPROVER_ensures(XG_FITS(__CPROVER_return_value, capacity))
+/* PO[C10] get_san_attr.fits_or_eoverflow */
+__CPROVER_ensures((XG_HAS_CERT && index < xvg_nsan && !xvg_no_str) ==> (XG_STR_RESULT(__CPROVER_return_value, value, capacity) && xvg.san_index == index && xvg.san_type == (int)san_type))
+/* PO[C10] get_san_attr.absent_is_enoent: no certificate, index beyond the count (the certificate is re-read on every call), or no such name */
+__CPROVER_ensures((!XG_HAS_CERT || index >= xvg_nsan || xvg_no_str) ==> (__CPROVER_return_value == -1 && xv_errno == ENOENT && xvg_strcpy_calls == __CPROVER_old(xvg_strcpy_calls)))
+__CPROVER_ensures(XG_CERT_BALANCED)
+;
+#define XG_SAN_GETTER_CONTRACT(type) \
+__CPROVER_requires(BT_FRESH(s) && XG_OUT(value, capacity) && XG_STR_OK && XVG_RANGE && XG_CERT_RANGE) \
+__CPROVER_assigns(xv_errno, XG_CERT_ASSIGNS, XG_STR_ASSIGNS, xvg.count_calls, xvg.san_calls, xvg.dir_calls, xvg.san_type, xvg.san_index) \
+__CPROVER_assigns(capacity > 0: __CPROVER_object_upto(value, capacity)) \
+__CPROVER_ensures(XG_FITS(__CPROVER_return_value, capacity)) \
+__CPROVER_ensures((XG_HAS_CERT && (size_t)context < xvg_nsan && !xvg_no_str) ==> (XG_STR_RESULT(__CPROVER_return_value, value, capacity) && xvg.san_index == (size_t)context && xvg.san_type == (int)(type))) \
+__CPROVER_ensures((!XG_HAS_CERT || (size_t)context >= xvg_nsan || xvg_no_str) ==> (__CPROVER_return_value == -1 && xv_errno == ENOENT))
+static int get_san_dns_attr(struct xcm_socket *s, void *context, void *value, size_t capacity)
+/* PO[C10] get_san_dns_attr.fits_or_eoverflow_or_enoent: the list index travels in `context`: the name of that index and type, written iff it fits, rv == bytes written */
+XG_SAN_GETTER_CONTRACT(cert_san_type_dns)
+;
+static int get_san_email_attr(struct xcm_socket *s, void *context, void *value, size_t capacity)
+/* PO[C10] get_san_email_attr.fits_or_eoverflow_or_enoent */
+XG_SAN_GETTER_CONTRACT(cert_san_type_email)
+;
+static int get_san_dir_cn_attr(struct xcm_socket *s, void *context, void *value, size_t capacity)
+/* PO[C10] get_san_dir_cn_attr.fits_or_eoverflow_or_enoent */
+XG_SAN_GETTER_CONTRACT(cert_san_type_dir)
+;
+
+/* ---- tls.cert_file/key_file/tc_file/crl_file (strings) and tls.cert/key/tc/crl (binary): the REAL get_file_attr/get_value_attr are
+ * inlined; the item's data is a NUL-terminated string of the ghost length (item.c: ut_strdup / ut_strndup of a NUL-free value) */
+#define XG_ITEM_DATA(s, f, ty) (BT(s)->f.type == (ty) ==> (__CPROVER_is_fresh(BT(s)->f.data, xvg_len + 1) && BT(s)->f.data[xvg_len] == 0 && \
+                                                         ((xv_j >= 0 && (size_t)xv_j < xvg_len) ==> BT(s)->f.data[xv_j] == xvg_c_j)))
+#define XG_FILE_GETTER_CONTRACT(f) \
+__CPROVER_requires(BT_FRESH(s) && XG_OUT(filename, capacity) && XG_STR_OK && XVG_RANGE && BT_IT_OK(BT(s)->f) && XG_ITEM_DATA(s, f, item_type_file)) \
+__CPROVER_assigns(xv_errno, XG_STR_ASSIGNS, xvg.tp_str_calls) \
+__CPROVER_assigns(capacity > 0: __CPROVER_object_upto(filename, capacity)) \
+__CPROVER_ensures(XG_FITS(__CPROVER_return_value, capacity)) \
+__CPROVER_ensures(BT(s)->f.type == item_type_file ? XG_STR_RESULT(__CPROVER_return_value, filename, capacity) \
+                                                  : (__CPROVER_return_value == -1 && xv_errno == ENOENT && xvg_strcpy_calls == __CPROVER_old(xvg_strcpy_calls)))
+#define XG_VALUE_GETTER_CONTRACT(f) \
+__CPROVER_requires(BT_FRESH(s) && XG_OUT(value, capacity) && XG_STR_OK && XVG_RANGE && BT_IT_OK(BT(s)->f) && XG_ITEM_DATA(s, f, item_type_value)) \
+__CPROVER_assigns(xv_errno, xvg.tp_bin_calls) \
+__CPROVER_assigns(capacity > 0: __CPROVER_object_upto(value, capacity)) \
+__CPROVER_ensures(XG_FITS(__CPROVER_return_value, capacity)) \
+__CPROVER_ensures(BT(s)->f.type == item_type_value ? (xvg_len <= capacity ? __CPROVER_return_value == (int)xvg_len : (__CPROVER_return_value == -1 && xv_errno == EOVERFLOW)) \
+                                                   : (__CPROVER_return_value == -1 && xv_errno == ENOENT))
+static int get_cert_file_attr(struct xcm_socket *s, void *context, void *filename, size_t capacity)
+/* PO[C10] get_cert_file_attr.fits_or_eoverflow_or_enoent: designated by file: the name and its NUL iff they fit, rv == bytes written; otherwise ENOENT */
+XG_FILE_GETTER_CONTRACT(cert)
+;
+static int get_key_file_attr(struct xcm_socket *s, void *context, void *filename, size_t capacity)
+/* PO[C10] get_key_file_attr.fits_or_eoverflow_or_enoent */
+XG_FILE_GETTER_CONTRACT(key)
+;
+static int get_tc_file_attr(struct xcm_socket *s, void *context, void *filename, size_t capacity)
+/* PO[C10] get_tc_file_attr.fits_or_eoverflow_or_enoent */
+XG_FILE_GETTER_CONTRACT(tc)
+;
+static int get_crl_file_attr(struct xcm_socket *s, void *context, void *filename, size_t capacity)
+/* PO[C10] get_crl_file_attr.fits_or_eoverflow_or_enoent */
+XG_FILE_GETTER_CONTRACT(crl)
+;
+static int get_cert_attr(struct xcm_socket *s, void *context, void *value, size_t capacity)
+/* PO[C10] get_cert_attr.fits_or_eoverflow_or_enoent: designated by value: exactly the value's bytes (no NUL) iff they fit, rv == their number; otherwise ENOENT */
+XG_VALUE_GETTER_CONTRACT(cert)
+;
+static int get_key_attr(struct xcm_socket *s, void *context, void *value, size_t capacity)
+/* PO[C10] get_key_attr.fits_or_eoverflow_or_enoent */
+XG_VALUE_GETTER_CONTRACT(key)
+;
+static int get_tc_attr(struct xcm_socket *s, void *context, void *value, size_t capacity)
+/* PO[C10] get_tc_attr.fits_or_eoverflow_or_enoent */
+XG_VALUE_GETTER_CONTRACT(tc)
+;
+static int get_crl_attr(struct xcm_socket *s, void *context, void *value, size_t capacity)
+/* PO[C10] get_crl_attr.fits_or_eoverflow_or_enoent */
+XG_VALUE_GETTER_CONTRACT(crl)
+;
+/* ---- the five boolean policy attributes */
+#define XG_BOOL_GETTER_CONTRACT(f) \
+__CPROVER_requires(BT_FRESH(s) && XG_OUT(value, capacity) && XVG_RANGE && BT_BOOLS_OK(s)) \
+__CPROVER_assigns(xv_errno, xvg.tp_bool_calls) \
+__CPROVER_assigns(capacity > 0: __CPROVER_object_upto(value, capacity)) \
+__CPROVER_ensures(XG_FITS(__CPROVER_return_value, capacity)) \
+__CPROVER_ensures(capacity >= sizeof(bool) ? (__CPROVER_return_value == (int)sizeof(bool) && *BT_U8(value) == (BT(s)->f ? 1 : 0)) : (__CPROVER_return_value == -1 && xv_errno == EOVERFLOW))
+static int get_client_attr(struct xcm_socket *s, void *context, void *value, size_t capacity)
+/* PO[C10] get_client_attr.one_byte_or_eoverflow */
+XG_BOOL_GETTER_CONTRACT(tls_client)
+;
+static int get_auth_attr(struct xcm_socket *s, void *context, void *value, size_t capacity)
+/* PO[C10] get_auth_attr.one_byte_or_eoverflow */
+XG_BOOL_GETTER_CONTRACT(tls_auth)
+;
+static int get_check_crl_attr(struct xcm_socket *s, void *context, void *value, size_t capacity)
+/* PO[C10] get_check_crl_attr.one_byte_or_eoverflow */
+XG_BOOL_GETTER_CONTRACT(check_crl)
+;
+static int get_check_time_attr(struct xcm_socket *s, void *context, void *value, size_t capacity)
+/* PO[C10] get_check_time_attr.one_byte_or_eoverflow */
+XG_BOOL_GETTER_CONTRACT(check_time)
+;
+static int get_verify_peer_name_attr(struct xcm_socket *s, void *context, void *value, size_t capacity)
+/* PO[C10] get_verify_peer_name_attr.one_byte_or_eoverflow */
+XG_BOOL_GETTER_CONTRACT(verify_peer_name)
+;
+#endif
 
 #include "contracts/end.h"
 #endif
